@@ -61,6 +61,7 @@ void osmo_fsm_inst_free(struct osmo_fsm_inst *fi);
 int osmo_fsm_inst_state_chg(struct osmo_fsm_inst *fi, uint32_t new_state, unsigned long timeout_secs, int T);
 void osmo_fsm_inst_term(struct osmo_fsm_inst *fi, enum osmo_fsm_term_cause cause, void *data);
 extern int shim_parent_events, shim_last_parent_event;
-#define LOGPFSML(fi, level, fmt, args...) do { } while (0)
-#define LOGPFSMSL(fi, ss, level, fmt, args...) do { } while (0)
-#define LOGPFSM(fi, fmt, args...) do { } while (0)
+#include <osmocom/core/logging.h>
+#define LOGPFSML(fi, level, fmt, args...) shim_log(fmt, ## args)
+#define LOGPFSMSL(fi, ss, level, fmt, args...) shim_log(fmt, ## args)
+#define LOGPFSM(fi, fmt, args...) shim_log(fmt, ## args)
